@@ -102,8 +102,35 @@ class Lower:
             return '(XIfFacet %s %s %s)' % (facet, self.e(subst(a, env)), self.e(subst(b, env)))
         self.bad('expression not in the subset', x)
 
+    def accumulate_in_size(self, stmts):
+        """std::size_t m = 0; LOOP over m (size not mentioned); size = m + c;    is    size = 0; LOOP over size; size = size + c;
+           and, inside,  if (m < E) m = E;   is   m = std::max(m, E);"""
+        stmts = [x for x in stmts if x != ('using',)]
+        for i in range(len(stmts) - 2):
+            d, lp, fin = stmts[i], stmts[i + 1], stmts[i + 2]
+            if not (d[0] == 'decl' and len(d[2]) == 1 and d[2][0][1] == ('num', 0) and d[2][0][0] not in ('size', 'index') and lp[0] == 'for'
+                    and fin[0] == 'expr' and fin[1][0] == 'assign' and fin[1][1] == '=' and fin[1][2] == ('id', 'size')):
+                continue
+            m = d[2][0][0]
+            if mc._mentions(lp, 'size') or mc._mentions(stmts[i + 3:], m) or not mc._mentions(fin[1][3], m):
+                continue
+            env = {m: ('id', 'size')}
+            return (stmts[:i] + [('expr', ('assign', '=', ('id', 'size'), ('num', 0))), self.max_form(subst(lp, env)), subst(fin, env)] + stmts[i + 3:])
+        return stmts
+
+    def max_form(self, n):
+        if isinstance(n, list):
+            return [self.max_form(x) for x in n]
+        if isinstance(n, tuple):
+            if (len(n) == 5 and n[0] == 'if' and not n[1] and n[4] is None and n[2][0] == 'bin' and n[2][1] == '<' and n[2][2][0] == 'id'):
+                th = [x for x in (n[3][1] if n[3][0] == 'block' else [n[3]]) if x != ('using',)]
+                if th == [('expr', ('assign', '=', n[2][2], n[2][3]))]:
+                    return ('expr', ('assign', '=', n[2][2], ('call', ('id', 'std::max'), [n[2][2], n[2][3]])))
+            return tuple(self.max_form(x) for x in n)
+        return n
+
     def seq(self, stmts):
-        out = [self.s(t) for t in stmts]
+        out = [self.s(t) for t in self.accumulate_in_size(stmts)]
         out = [t for t in out if t != 'QSkip']
         if not out:
             return 'QSkip'
@@ -118,6 +145,10 @@ class Lower:
         if (st[1], st[2], st[3]) != want_outer:
             self.bad('outer loop header is not `for (auto iter = first; iter != last; ++iter)`', st[:4])
         ob = [x for x in (st[4][1] if st[4][0] == 'block' else [st[4]]) if x != ('using',)]
+        # const auto type_last = iter->type_id_end();  hoisted out of the inner loop header (the range of ids of a record is fixed)
+        if (len(ob) == 2 and ob[0][0] == 'decl' and ob[0][1] in ('const auto', 'auto') and len(ob[0][2]) == 1
+                and ob[0][2][0][1] == ('call', ('member', ('id', 'iter'), 'type_id_end', True), []) and ob[1][0] == 'for'):
+            ob = [subst(ob[1], {ob[0][2][0][0]: ob[0][2][0][1]})]
         if len(ob) != 1 or ob[0][0] != 'for':
             self.bad('the outer loop body is not exactly the loop over the type ids', st[4])
         inner = ob[0]
